@@ -80,7 +80,7 @@ func init() {
 		Level: "exploration",
 		Rule: "each case runs in a chroot jail: /outside (sentinel files with unique marked bytes, dirs, symlinks, fifo, char device) plus /cN/{srcroot,dstroot,sib}. " +
 			"Source and destination trees (<=18 entries, depth<=3, names {a,b,d,l,outside,sib} shared with the sentinel trees, ~40% symlinks, hard-linked source files) get symlink targets drawn from: absolute into /outside, /cN/sib, the other root and '/', '../'-chains of exactly and more than the depth needed to leave the root, in-tree, dangling (incl. not-yet-existing names inside sentinel dirs) and loops (self, pairs). " +
-			"src and dst arguments are drawn from entry paths, paths continuing through every symlink, sentinel-looking absolute and '../' arguments, nested new names, trailing separators, wildcards (src) and '..'-ending sources; flags are random subsets of {FollowLinks, AllowWildcards, AlwaysReplace, CopyDirContents, Chown, Utime, Mode}. fs.Copy is run once; errors are accepted. " +
+			"src and dst arguments are drawn from entry paths, paths continuing through every symlink, sentinel-looking absolute and '../' arguments, nested new names, trailing separators, wildcards (src) and '..'-ending sources; flags are random subsets of {FollowLinks, AllowWildcards, AlwaysReplace, CopyDirContents, Chown, Utime, Mode}. One case in fifteen spells the source 'x/.' for an entry x of any type (three quarters non-directories, with FollowLinks also 'link/.') onto the root or an existing directory, two thirds with always-replace: x behaves exactly like 'x' (lands inside under its own name; violations there are reported as nondir-dot-source). fs.Copy is run once; errors are accepted. " +
 			"One case in four additionally runs with IncludePatterns (and a third of those with ExcludePatterns): patterns are derived from the source paths below the copied directory so that they select descendants of a directory but not the directory itself ('<dir>/*', '<dir>/<child>', '<dir>/*/*', '<dir>/**/<leaf>', '**/<leaf>', '*/<child>', '<dir>/**') plus refs.GenPatterns over the same paths; in two thirds of them whole trees are copied onto each other and in three quarters of those the destination gets a symlink to an existing directory outside the root (/outside/d, /outside, /cN/sib[/d[/d]], '../'-chains to the same) at the name of such a source directory (ancestors made real directories). Under patterns (a), (b), the landing of the (always selected) top-level entry and confinement are checked; replacement of nested destination symlinks is not (an unselected entry need not replace anything). " +
 			"Checked: (a) jail snapshot minus the inside of dstroot identical in every field incl. inode and ctime; (b) every regular file in dstroot afterwards is either untouched or has the bytes of a source-root file, and none carries a sentinel marker; (c) a destination symlink facing a source entry is replaced by that entry's type or the call fails, and nothing in dstroot outside the landing subtree and its ancestors changes; (d) on success the landing path equals base-name placement on top of an independent chroot-style resolution of both arguments over the tree models. " +
 			"non-trivial = an escaping symlink (absolute or leaving its root through '..') was traversed by an argument, lies in the copied source subtree or lies in the destination landing region; distinct by (trees, arguments, flags) fingerprint",
@@ -313,6 +313,19 @@ func hasInnerDotDot(arg string) bool {
 
 func c14Run(c *core.Ctx) *core.Result {
 	r := &core.Result{}
+	relabel := ""
+	defer func() {
+		if relabel == "" {
+			return
+		}
+		for i := range r.Viols {
+			if r.Viols[i].Sig == "rootpath-lexical-join" {
+				continue
+			}
+			r.Viols[i].Msg = "[" + r.Viols[i].Sig + "] " + r.Viols[i].Msg
+			r.Viols[i].Sig = relabel
+		}
+	}()
 	if !needRoot(r) {
 		return r
 	}
@@ -369,6 +382,39 @@ func c14Run(c *core.Ctx) *core.Result {
 	planted := ""
 	if c.R.P(1, 4) {
 		srcArg, dstArg, planted = c14Patterns(c.R, r, cn, srcT, dstT, srcArg, dstArg, &fl)
+	}
+	// a further mode, drawn from a generator of its own: a source spelled
+	// "x/." for an entry x of any type (mostly non-directories; with
+	// FollowLinks also "link/.") onto the root or an existing directory,
+	// mostly with always-replace - x must land inside under its own name,
+	// the directory (for dst "/" the destination root itself) is not the target
+	xr := core.NewRand(core.Mix(c.Seed, "C14-dot", c.Index))
+	if xr.P(1, 15) && len(srcT.Entries) > 0 {
+		var non, all, ddirs []string
+		for _, e := range srcT.Entries {
+			all = append(all, e.Path)
+			if e.Type != tree.Dir {
+				non = append(non, e.Path)
+			}
+		}
+		for _, e := range dstT.Entries {
+			if e.Type == tree.Dir {
+				ddirs = append(ddirs, e.Path)
+			}
+		}
+		x := core.Pick(xr, all)
+		if len(non) > 0 && xr.P(3, 4) {
+			x = core.Pick(xr, non)
+		}
+		srcArg = x + "/."
+		dstArg = core.Pick(xr, []string{"/", "", ".", "/"})
+		if len(ddirs) > 0 && xr.P(1, 3) {
+			dstArg = core.Pick(xr, ddirs)
+		}
+		fl.Always = xr.P(2, 3)
+		fl.Wild = false
+		fl.Include, fl.Exclude, planted = nil, nil, ""
+		r.Count("nondir_dot_mode_cases", 1)
 	}
 	usePatterns := len(fl.Include)+len(fl.Exclude) > 0
 
@@ -466,6 +512,27 @@ func c14Run(c *core.Ctx) *core.Result {
 		return def
 	}
 
+	// cases that exercise one of two named placement rules report under the
+	// rule's name (the original signature is kept in the message)
+	{
+		patternSrc := fl.Wild && strings.ContainsAny(srcArg, "*?[")
+		rDir := R.Err == "" && R.Ambig == "" && ((R.Exists && R.Type == tree.Dir) || (!R.Exists && (strings.HasSuffix(dstArg, "/") || strings.HasSuffix(dstArg, "/."))))
+		sOK := S.Err == "" && S.Ambig == "" && S.Exists
+		switch {
+		case sOK && S.Type != tree.Dir && !fl.Wild && filepath.Base(srcArg) == "." && rDir:
+			relabel = "nondir-dot-source"
+			r.Count("nondir_dot_source_into_existing_directory", 1)
+			if fl.Always {
+				r.Count("nondir_dot_source_into_existing_directory_always_replace", 1)
+			}
+		case sOK && S.Type == tree.Dir && !fl.CDC && !patternSrc && R.Err == "" && R.Ambig == "" && R.Exists && R.Type != tree.Dir:
+			r.Count("dir_source_onto_existing_non_directory", 1)
+			if fl.Always {
+				relabel = "dir-over-nondir-always-replace"
+				r.Count("dir_source_onto_existing_non_directory_always_replace", 1)
+			}
+		}
+	}
 	cerr := runCopy(srcRoot, srcArg, dstRoot, dstArg, fl)
 
 	outA, _, dstA, err := snap()
@@ -610,8 +677,19 @@ func c14Run(c *core.Ctx) *core.Result {
 				base = "."
 				r.Count("src_argument_ends_in_dotdot", 1)
 			}
+			if !sIsDir && base == "." {
+				// "x/." names the non-directory x itself
+				base = filepath.Base(filepath.Join("/", srcArg))
+			}
+			// from the statement: a source directory lands inside an existing
+			// destination DIRECTORY under its own name (unless directory-contents
+			// mode is on), a non-directory copied to an existing directory lands
+			// inside it; everything else lands at dst itself - a directory
+			// meeting an existing non-directory is the conflict (error, or with
+			// always-replace the source wins)
 			landing = R.Path
-			if (sIsDir && !fl.CDC && rExists) || (!sIsDir && rExists && rIsDir) {
+			_ = rExists
+			if rIsDir && (!sIsDir || !fl.CDC) {
 				if base != "." && base != "/" {
 					landing = relJoin(R.Path, base)
 				}
